@@ -97,12 +97,16 @@ fn error_lines(json: &str) -> Vec<(usize, Option<&'static str>)> {
             continue;
         }
         let kind = KINDS.iter().find(|k| l.contains(**k)).copied();
+        // only spans inside the generated file (macro definition sites have their own line numbers)
         let mut rest = l;
-        while let Some(p) = rest.find("\"line_start\":") {
-            rest = &rest[p + 13..];
-            let n: String = rest.chars().take_while(|c| c.is_ascii_digit()).collect();
-            if let Ok(n) = n.parse::<usize>() {
-                out.push((n, kind));
+        while let Some(p) = rest.find("\"file_name\":\"src/main.rs\"") {
+            rest = &rest[p + 10..];
+            if let Some(q) = rest.find("\"line_start\":") {
+                let tail = &rest[q + 13..];
+                let n: String = tail.chars().take_while(|c| c.is_ascii_digit()).collect();
+                if let Ok(n) = n.parse::<usize>() {
+                    out.push((n, kind));
+                }
             }
         }
     }
@@ -174,9 +178,9 @@ pub fn run_batch(lines: &[String]) -> Vec<Obs> {
         src.push_str("}\n");
         let dir = job.join("ok");
         write_crate(&dir, &src);
-        let (built, json) = cargo(&dir, &target, &["build", "--release"]);
+        let (built, json) = cargo(&dir, &target, &["build"]);
         if built {
-            let out = Command::new(target.join("release").join("c20case")).output().expect("run c20case");
+            let out = Command::new(target.join("debug").join("c20case")).output().expect("run c20case");
             for l in String::from_utf8_lossy(&out.stdout).lines() {
                 let mut it = l.split('\t');
                 if let (Some(k), Some(v), Some(t)) = (it.next(), it.next(), it.next()) {
